@@ -14,8 +14,8 @@
 #define VERIF_TOKENIZE(file) verif_tokenize_one(file)
 #include "common.h"
 #include "pp_env.h"
-static Token *verif_tokenize_one(File *file);
 #include "preprocess.c"
+static Token *verif_tokenize_one(File *file);
 #include "pp_env_impl.h"
 
 struct IN_t {
@@ -117,7 +117,8 @@ static int reference(void) {
     if (i >= n) continue;
     int b = IN.body[i];
     if (b == B_PASTE) {
-      if (i == 0 || i == n - 1 || pending_paste) return 0;   // ## at either end (6.10.3.3p1); `## ##` excluded too
+      if (pending_paste) return 2;                            // `## ##`: excluded
+      if (i == 0 || i == n - 1) return 0;                     // ## at either end (6.10.3.3p1)
       pending_paste = true;
       continue;
     }
